@@ -83,6 +83,16 @@ def _full_name(func):
   return None
 
 
+def _is_positional_packing(n, par):
+  """Is `n` (a tuple(...) call) part of the positional-argument operand of an ag__.converted_call?"""
+  cur = n
+  p = par.get(id(cur))
+  while isinstance(p, ast.BinOp) and isinstance(p.op, ast.Add):
+    cur, p = p, par.get(id(p))
+  return (isinstance(p, ast.Call) and _full_name(p.func) == 'ag__.converted_call' and len(p.args) > 1 and
+          p.args[1] is cur)
+
+
 def scan_module(source, builtin_functions_on):
   """Returns (problems, counts) for one emitted module."""
   tree = ast.parse(source)
@@ -127,6 +137,8 @@ def scan_module(source, builtin_functions_on):
         continue
       if isinstance(n.func, ast.Name) and n.func.id == 'dict' and not n.args:
         continue   # keyword packing emitted by the converter
+      if isinstance(n.func, ast.Name) and n.func.id == 'tuple' and _is_positional_packing(n, par):
+        continue   # *args packing emitted by the converter: converted_call(f, (a,) + tuple(args), ...)
       if full in ('pdb.set_trace', 'ipdb.set_trace', 'breakpoint'):
         counts['exempt_nodes'] += 1
         continue
